@@ -1,6 +1,7 @@
 package main
 
 import (
+	"github.com/oasisprotocol/oasis-core/go/common/cbor"
 	"bytes"
 	"crypto/sha256"
 	"encoding/hex"
@@ -294,6 +295,15 @@ func (b *bundle) foreignHook(blk *chain.Block) chain.Hook {
 	return func(n *chain.Node, step int) {
 		for _, tx := range blk.Txs {
 			_, _ = n.CheckTx(tx)
+			// gas estimation (a simulated execution) of the same transaction, as a client would ask for
+			func() {
+				defer func() { _ = recover() }()
+				var sig signature.Signed
+				var t transaction.Transaction
+				if cbor.Unmarshal(tx, &sig) == nil && cbor.Unmarshal(sig.Blob, &t) == nil {
+					_, _ = n.Srv.EstimateGas(sig.Signature.PublicKey, &t)
+				}
+			}()
 		}
 		if n.Height > 0 {
 			func() {
